@@ -56,6 +56,23 @@ func replayScaleE1(kind string, input json.RawMessage) (bool, string) {
 		return ReplayPartial(input)
 	case "schema":
 		return ReplaySchema(input)
+	case "keptmarshal", "history":
+		var in HistInput
+		if err := json.Unmarshal(input, &in); err != nil {
+			return false, err.Error()
+		}
+		h := in.build()
+		out := Run(h, Opts{Start: ref.Position{File: h.Files[0].Name, Pos: 4}, ServerID: 3, LockStep: true, KeepTx: true})
+		if out.Hung {
+			return true, "Stream did not return within 60 s"
+		}
+		for i, d := range out.Deliveries {
+			json.Marshal(d.Tx)
+			if diff := d.Snap.Diff(hx.Snapshot(d.Tx)); diff != "" {
+				return true, fmt.Sprintf("delivery %d reads differently after it was serialised to JSON: %s", i, diff)
+			}
+		}
+		return false, "kept transactions read as delivered after they were serialised"
 	case "ctx":
 		var in CtxInput
 		if err := json.Unmarshal(input, &in); err != nil {
@@ -309,6 +326,7 @@ func RunBacklogTeardown(r *chk.Run) {
 func RunScaleKept(r *chk.Run) {
 	RunScale(r, "big-events", "kept-cells", "cap-transactions", "packet-sizes", "big-transaction")
 	RunPartialImages(r)
+	RunKeptMarshal(r)
 	r.Rule("scale half (native, one schedule per execution): histories that are large in one dimension (rows events of 6 KB .. 300 KB, packets of exactly 2^k-1 / 2^k / 2^k+1 bytes and around the sizes at which the driver changes its buffering, transactions with exactly as many events as each capacity a growing slice passes through, 8000 kept rows on one table id, one transaction of 20000 rows events); oracle: every delivered transaction equals the reference when it is delivered and again, unchanged, when the stream has ended")
 	r.SetExhaustive(true)
 }
@@ -425,7 +443,9 @@ func RunContexts(r *chk.Run) {
 		for _, c := range []string{"far-deadline", "error-after-deadline"} {
 			in := CtxInput{Case: c, Cfg: cfg}
 			n++
-			if why := checkCtx(in); why != "" && why != "HUNG" {
+			if why := checkCtx(in); why == "HUNG" {
+				hungViolation(r, "checkCtx", "ctx", in)
+			} else if why != "" {
 				r.Report(chk.Violation{Key: "context:" + c, What: fmt.Sprintf("cfg=%s: %s", CfgName(cfg), why), Kind: "ctx", Replay: in, Recheck: func() string { return checkCtx(in) }})
 			}
 		}
@@ -433,4 +453,45 @@ func RunContexts(r *chk.Run) {
 	r.Eval(n)
 	r.DistinctN(n)
 	r.Set("context_executions", fmt.Sprintf("%d: the caller's context carries a deadline an hour ahead (same blocking dump request, same deliveries); the master ends the dump with an ERR packet and Error() is read after the 1.5 s deadline of the context has passed (only when Stream had returned before it)", n))
+}
+
+// RunKeptMarshal: the handler keeps every transaction; when the stream has ended
+// each one is serialised to JSON and read again: rendering a value is a read,
+// the value must still be what was delivered (statements of every DDL text of the
+// generator, one of them not valid UTF-8; rows with every kind of cell).
+func RunKeptMarshal(r *chk.Run) {
+	var n int64
+	for _, cfg := range []ref.Cfg{Cfgs()[1], Cfgs()[14]} {
+		units := []string{UTxXID, UTx2, UAutoRows, USet, UStmtOut}
+		for k := 0; k < 13; k++ {
+			units = append(units, UDDL)
+		}
+		in := HistInput{Units: units, Cfg: cfg, LockStep: true}
+		h := in.build()
+		start := ref.Position{File: h.Files[0].Name, Pos: 4}
+		out := Run(h, Opts{Start: start, ServerID: 3, LockStep: true, KeepTx: true})
+		n++
+		if out.Hung {
+			hungViolation(r, "kept transactions", "history", in)
+		}
+		why := ""
+		for i, d := range out.Deliveries {
+			if d.Tx == nil {
+				continue
+			}
+			if _, err := json.Marshal(d.Tx); err != nil {
+				why = fmt.Sprintf("delivery %d: json.Marshal: %v", i, err)
+				break
+			}
+			if diff := d.Snap.Diff(hx.Snapshot(d.Tx)); diff != "" {
+				why = fmt.Sprintf("delivery %d reads differently after it was serialised to JSON: %s", i, diff)
+				break
+			}
+		}
+		if why != "" {
+			r.Report(chk.Violation{Key: "changed-by-marshal", What: fmt.Sprintf("cfg=%s: %s", CfgName(cfg), why), Kind: "keptmarshal", Replay: in})
+		}
+	}
+	r.Eval(n)
+	r.DistinctN(n)
 }
